@@ -229,7 +229,8 @@ func H_C16_second() {
 func H_C16_parse() {
 	kw := ndChoice("kw", 2)
 	preCached := ndBool("precached")
-	l := &c16Loader{exists: map[string]bool{"/dep.jet": true}, openFail: map[string]bool{}, content: map[string]string{"/dep.jet": "{{ block b() }}D{{ end }}"}}
+	l := &c16Loader{exists: map[string]bool{"/dep.jet": true, "/dep2.jet": true, "/dep3.jet": true}, openFail: map[string]bool{},
+		content: map[string]string{"/dep.jet": `{{ extends "/dep2.jet" }}{{ import "/dep3.jet" }}{{ block b() }}D{{ end }}`, "/dep2.jet": "{{ block b() }}D2{{ end }}", "/dep3.jet": "{{ block c() }}D3{{ end }}"}}
 	c := &c16Cache{m: map[string]*Template{}}
 	set := NewSet(l, WithCache(c))
 	if preCached {
